@@ -122,7 +122,9 @@ class C15Oracle(worldprop.Oracle):
                 if n.get("shape") in ("point", "note"):
                     continue
                 lab = n.get("label", "")
-                if not lab.startswith("<"):
+                # Graphviz hands out an HTML-like label without its outer angle brackets: the two-line label of an element
+                # drawn under its prov:label starts with the (escaped) label text, not with a tag
+                if not (lab.startswith("<") or "<br />" in lab or "<br/>" in lab.lower()):
                     lab = unesc(lab)
                 got[(unesc(n.get("URL")), lab)] += 1
             for (uri, lab, ident), k in want.items():
